@@ -258,6 +258,19 @@ func RunPolicyCase(cs map[string]any, id int, seed int64) Result {
 				pol.TdQuoteBodyPolicy = nil
 			}
 		}
+		// whatever an earlier conversion of an empty policy returned belongs to that caller: writing into it must not show in later conversions
+		Guard(90*time.Second, func() error {
+			if po, err := validate.PolicyToOptions(&ccpb.Policy{}); err == nil && po != nil {
+				po.TdQuoteBodyOptions.ReportData = gen.RandBytes(rng, 64)
+				po.TdQuoteBodyOptions.MrTd = gen.RandBytes(rng, 48)
+				po.HeaderOptions.MinimumQeSvn = 65535
+			}
+			if po, err := validate.PolicyToOptions(&ccpb.Policy{HeaderPolicy: &ccpb.HeaderPolicy{}, TdQuoteBodyPolicy: &ccpb.TDQuoteBodyPolicy{}}); err == nil && po != nil {
+				po.TdQuoteBodyOptions.ReportData = gen.RandBytes(rng, 64)
+				po.HeaderOptions.MinimumPceSvn = 65535
+			}
+			return nil
+		})
 		o := Guard(90*time.Second, func() error {
 			var err error
 			opts, err = validate.PolicyToOptions(pol)
@@ -280,6 +293,19 @@ func RunPolicyCase(cs map[string]any, id int, seed int64) Result {
 		}
 	}
 	rawSame := true
+	switch c["quoteRtmrs"] { // a message with another number of RTMR entries (the byte form always has four)
+	case "three":
+		msg.TdQuoteBody.Rtmrs = msg.TdQuoteBody.Rtmrs[:3]
+	case "none":
+		msg.TdQuoteBody.Rtmrs = nil
+	case "five":
+		msg.TdQuoteBody.Rtmrs = append(msg.TdQuoteBody.Rtmrs, gen.RandBytes(rng, 48))
+	}
+	if result == "" && c["quoteRtmrs"] != nil && c["quoteRtmrs"] != "four" {
+		o := Guard(90*time.Second, func() error { return validate.TdxQuote(msg, opts) })
+		result = map[string]string{"accept": "ok", "reject": "reject", "panic": "panic", "timeout": "timeout"}[o.Verdict()]
+		detail = o.ErrText()
+	}
 	if result == "" {
 		o := Guard(90*time.Second, func() error { return validate.TdxQuote(msg, opts) })
 		result = map[string]string{"accept": "ok", "reject": "reject", "panic": "panic", "timeout": "timeout"}[o.Verdict()]
